@@ -8,4 +8,5 @@ CONSTANTS
   ThreadOf <- MCThreadOfShared
 INVARIANTS MonitorAccepts NoOverlap HolderExecutes FrameOrder OwedBeforeRunEnd
 PROPERTIES EveryoneFinishes RunsEnd
+VIEW MCView
 CHECK_DEADLOCK FALSE
